@@ -453,6 +453,19 @@ def ft1(ctx):
                 if b.edge_dominates(nonempty, p) and p not in b.reach([empty[1]], avoid_edges=[nonempty]):
                     ok = True
             if not ok:
+                # built before the test, HANDED OUT only after it: `(!files.is_empty()).then_some(FileTracker { files })`
+                al_ = None
+                for bi2, blk2 in enumerate(b.blocks):
+                    for si2, st2 in enumerate(blk2['stmts']):
+                        if b.live[bi2] and b.pstart[bi2] + si2 == p and st2['k'] == 'assign' and not st2['place']['p']:
+                            al_ = st2['place']['l']
+                if al_ is not None:
+                    carriers = [e for e in b.exits() if e['kind'] == 'some' and e.get('ops') and op_local(e['ops'][0]) is not None
+                                and any(o[0] == 'rv' and o[1] == p for o in b.trace_local(op_local(e['ops'][0])))]
+                    whole = [e for e in b.exits() if e['kind'] in ('value', 'forward', 'ok') and e not in carriers]
+                    if carriers and not whole and all(any(b.edge_dominates(nonempty, e['point']) and e['point'] not in b.reach([empty[1]], avoid_edges=[nonempty]) for (_cs, nonempty, empty) in guards) for e in carriers):
+                        ok = True
+            if not ok:
                 # built from constants (e.g. FileTracker::new() = {0}): no input list to test
                 back = set()
                 for o in rvalue_operands(rv):
